@@ -10,7 +10,7 @@ def _denovo_assembler(genotype: A[i1, 2], inbreeding: float, reads: A[f8, 3], re
     requires(finite(recombination_step_probability), finite(partial_dosage_step_probability), finite(dosage_step_probability))
     requires(forall(0, N, lambda y: 2 <= n_alleles[y] and n_alleles[y] <= reads.shape[2]))
     requires(implies(read_counts is not None, len(read_counts) == len(reads) and forall(0, len(reads), lambda r: read_counts[r] >= 1)))
-    requires(forall(lambda r, y, a: not isninf(reads[r, y, a]) and (isnan(reads[r, y, a]) or reads[r, y, a] >= 0)))
+    requires(READSOK(reads, len(reads), reads.shape[1], reads.shape[2]))
     requires(VALIDG(genotype, n_alleles, P, N), POSREADS(reads, CN, n_alleles, P, N, len(reads)))
     # a temperature ladder: inverse temperatures in [0,1], strictly ascending
     requires(len(temperatures) >= 1, forall(0, len(temperatures), lambda t: finite(temperatures[t]) and 0 <= temperatures[t] and temperatures[t] <= 1))
